@@ -49,6 +49,7 @@ pub fn unregister(slot: usize) {
 fn write_all(s: &[u8]) {
     unsafe { libc::write(1, s.as_ptr().cast(), s.len()) };
 }
+#[allow(dead_code)]
 fn write_num(mut n: usize) {
     let mut buf = [0u8; 24];
     let mut i = buf.len();
@@ -63,6 +64,8 @@ fn write_num(mut n: usize) {
     }
     write_all(&buf[i..]);
 }
+
+static REPORTED: std::sync::atomic::AtomicBool = std::sync::atomic::AtomicBool::new(false);
 
 extern "C" fn on_fault(_sig: libc::c_int, info: *mut libc::siginfo_t, _ctx: *mut libc::c_void) {
     let addr = unsafe { (*info).si_addr() } as usize;
@@ -80,9 +83,40 @@ extern "C" fn on_fault(_sig: libc::c_int, info: *mut libc::siginfo_t, _ctx: *mut
     if guard {
         // an access outside a metadata buffer: a verdict
         let id = WORKER_ID.try_with(|w| w.get()).unwrap_or(usize::MAX);
-        write_all(b"\nVIOLATION property=C18 replay=/verif/replays/C18/inflight-");
-        write_num(if id == usize::MAX { 0 } else { id });
-        write_all(b".json\n");
+        // several workers may fault at once: only the first one reports, in one write
+        if REPORTED.swap(true, Ordering::SeqCst) {
+            loop {
+                unsafe { libc::pause() };
+            }
+        }
+        let mut line = [0u8; 96];
+        let mut n = 0;
+        for &b in b"\nVIOLATION property=C18 replay=/verif/replays/C18/inflight-" {
+            line[n] = b;
+            n += 1;
+        }
+        let id = if id == usize::MAX { 0 } else { id };
+        let mut digits = [0u8; 20];
+        let mut d = 0;
+        let mut v = id;
+        loop {
+            digits[d] = b'0' + (v % 10) as u8;
+            d += 1;
+            v /= 10;
+            if v == 0 {
+                break;
+            }
+        }
+        while d > 0 {
+            d -= 1;
+            line[n] = digits[d];
+            n += 1;
+        }
+        for &b in b".json\n" {
+            line[n] = b;
+            n += 1;
+        }
+        write_all(&line[..n]);
         unsafe { libc::_exit(1) };
     } else {
         write_all(b"\nMACHINERY ERROR: SIGSEGV outside the guard pages\n");
